@@ -257,3 +257,43 @@ func VerifH_C13_PromptPeer() {
 	verifUnlock()
 	cli.Close()
 }
+
+// A peer that answers the first PINGREQ twice (a surplus, unsolicited PINGRESP) and then goes silent is
+// declared silent at the very next ping: the stale response does not answer it.
+func VerifH_C13_SurplusResp() {
+	conn := newVconn("c0")
+	cli := &BaseClient{Transport: conn}
+	first := true
+	pings := 0
+	conn.onWrite = func(c *vconn, p []byte) error {
+		var resp []byte
+		if first {
+			first = false
+			resp = []byte{0x20, 2, 0, 0}
+		} else if d := refDecode(p); d.ok && d.typ == 12 {
+			pings++
+			if pings == 1 {
+				resp = []byte{0xD0, 0, 0xD0, 0}
+			}
+		}
+		if resp != nil {
+			c.rbuf = append(c.rbuf, resp...)
+			c.nInjected += len(resp)
+			c.signalLocked = true
+		}
+		return nil
+	}
+	_, cerr := cli.Connect(context.Background(), "cid")
+	verifAssert(cerr == nil, "C13.harness_connect")
+	unit := time.Second
+	if !verifSymbolic() {
+		unit = 5 * time.Millisecond
+	}
+	err := KeepAlive(context.Background(), cli, unit, unit/2)
+	verifReach("returned")
+	verifAssert(errors.Is(err, ErrPingTimeout), "C13.silence_is_ping_timeout")
+	verifLock()
+	verifAssert(pings == 2, "C13.silent_peer_detected_at_the_next_ping")
+	verifUnlock()
+	cli.Close()
+}
